@@ -73,7 +73,7 @@ def check_schedule(spec, res):
         elif w:
             v = w
     res.case(
-        case_repr={"schedule": spec} if res.evaluations % 3001 == 2 else None,
+        case_repr={"schedule": spec} if res.sample_now(3001) else None,
         nontrivial_key=("s", repr(spec)) if any(el[0] == "P" for el in spec) else None,
         outcome_key=("s", v[0] if v else "ok", max([1] + [e.clients for e in schedule])),
     )
@@ -122,7 +122,7 @@ def check_layout(cores, clients, res):
                     break
     nworkers = sum(1 for h in (asg or []) for w in h["workers"] if w)
     res.case(
-        case_repr={"cores": list(cores), "clients": clients, "assignment": asg} if res.evaluations % 1009 == 3 else None,
+        case_repr={"cores": list(cores), "clients": clients, "assignment": asg} if res.sample_now(1009) else None,
         nontrivial_key=("l", cores, clients) if nworkers > 1 else None,
         outcome_key=("l", nworkers, v[0] if v else "ok"),
     )
